@@ -22,20 +22,21 @@ pub static GROW: Scenario = Scenario {
 
 // (red zone, segment size). The red zone has to cover what this harness itself runs between two checks
 // (unoptimised frames of the library, the bookkeeping comparisons and their formatting).
-const PAIRS: [(usize, usize); 3] = [(16 * 1024, 64 * 1024), (32 * 1024, 128 * 1024), (64 * 1024, 256 * 1024)];
+// The last two ask for a red zone above half the segment size (legal: a fresh segment still holds it).
+const PAIRS: [(usize, usize); 5] = [(16 * 1024, 64 * 1024), (32 * 1024, 128 * 1024), (64 * 1024, 256 * 1024), (48 * 1024, 64 * 1024), (100 * 1024, 128 * 1024)];
 
 /// The caller's side of the contract: what runs between two checks (one frame of the recursion plus
 /// the bookkeeping frames) must fit into the red zone it asks for, and a fresh segment must hold it.
 fn fitting_frame(pair: usize, frame_kib: usize) -> usize {
-    match pair % 3 {
+    match pair % PAIRS.len() {
         0 => 1,
-        1 => frame_kib.min(4),
+        1 | 3 => frame_kib.min(4),
         _ => frame_kib,
     }
 }
 
 fn gen_grow(g: &mut Rng, tier: Tier) -> J {
-    let pair = g.below(3);
+    let pair = g.below(PAIRS.len() as u64);
     obj! {
         "where" => if g.chance(1, 2) { "coroutine" } else { "thread" },
         "pair" => pair,
@@ -179,7 +180,7 @@ fn grow_rounds(depth: usize, cfg: GrowCfg, rounds: usize) {
 
 fn body_grow(plan: &J) {
     *GROW_ERR.lock().unwrap_or_else(|e| e.into_inner()) = None;
-    let (red, size) = PAIRS[plan.gus("pair") % 3];
+    let (red, size) = PAIRS[plan.gus("pair") % PAIRS.len()];
     let depth = plan.gus("depth").max(1);
     let in_co = plan.gs("where") == "coroutine";
     let cfg = GrowCfg {
